@@ -10,3 +10,4 @@ from . import tagify  # noqa: F401
 from . import hooks  # noqa: F401
 from . import document  # noqa: F401
 from . import serial  # noqa: F401
+from . import jsx  # noqa: F401
